@@ -187,6 +187,9 @@ fn int_pair<const N: usize, const M: usize>(sa: usize, va: &[i32], sb: usize, vb
     if a.partial_cmp(&b) != Some(ord) {
         return Err(format!("partial_cmp returned {:?}, lexicographic order of {:?} vs {:?} is {:?}", a.partial_cmp(&b), va, vb, ord));
     }
+    if (a > b) != (ord == Ordering::Greater) || (a <= b) != (ord != Ordering::Greater) {
+        return Err(format!("operators > / <= disagree with the lexicographic order of {:?} vs {:?}", va, vb));
+    }
     if (a < b) != (ord == Ordering::Less) || (a >= b) != (ord != Ordering::Less) {
         return Err(format!("operators < / >= disagree with the lexicographic order of {:?} vs {:?}", va, vb));
     }
@@ -288,6 +291,21 @@ fn float_pair<const N: usize, const M: usize>(sa: usize, ca: &[i32], sb: usize, 
     let want = lex_float(&va, &vb);
     if a.partial_cmp(&b) != want {
         return Err(format!("partial_cmp returned {:?}, expected {:?} for {:?} vs {:?}", a.partial_cmp(&b), want, va, vb));
+    }
+    // the four operators are provided methods of PartialOrd: each must agree with the lexicographic partial order
+    // (all false when the deciding pair is incomparable)
+    {
+        use std::cmp::Ordering::*;
+        let exp = [want == Some(Less), matches!(want, Some(Less | Equal)), want == Some(Greater), matches!(want, Some(Greater | Equal))];
+        let got = [a < b, a <= b, a > b, a >= b];
+        let got2 = [PartialOrd::lt(&a, &b), PartialOrd::le(&a, &b), PartialOrd::gt(&a, &b), PartialOrd::ge(&a, &b)];
+        if got != exp || got2 != exp {
+            return Err(format!("operators [<, <=, >, >=] gave {:?}, the lexicographic partial order of {:?} vs {:?} ({:?}) gives {:?}", got, va, vb, want, exp));
+        }
+        let sl = [va[..] < vb[..], va[..] <= vb[..], va[..] > vb[..], va[..] >= vb[..]];
+        if sl != exp {
+            return Err("internal: reference operators disagree with the slice operators".into());
+        }
     }
     // cross-check of the hand-written order against the slice order
     if va[..].partial_cmp(&vb[..]) != want {
